@@ -198,10 +198,32 @@ SEEDS5 = {
     "C09-8": ("C09", ["C09", "C08"], "proof-length pre-check with a bound computed in floating point (ceil(log2(float64(size)))+1)", "a submitted size just above a large power of two (2^k + d, k >= 49, small d), an odd stored size, a correct proof"),
 }
 SEEDS2.update(SEEDS5)
+SEEDS6 = {
+    "C06-9": ("C06", ["C06"], "monolith.go removes <db_file>-journal/-wal/-shm before opening the database", "a kill that leaves a hot rollback journal (inside the commit of a multi-page checkpoint), then a restart of the real program"),
+    "C06-10": ("C06", ["C06"], "sql Init() sets PRAGMA journal_mode = MEMORY", "a kill inside the commit of a multi-page checkpoint, or before commit of one larger than the page cache"),
+    "C11-9": ("C11", ["C11", "C10"], "parseBody collects ReadLine slices up to the separator and decodes them afterwards (sub-slices of bufio's reused buffer)", "old line + proof beyond 4096 bytes, or a body delivered in several short reads"),
+    "C11-10": ("C11", ["C11"], "hand-rolled decimal parse with an off-by-one overflow cutoff (n > cutoff)", "old 18446744073709551620..29 (2^64+4..13) and that 19-digit prefix followed by more digits"),
+    "C12-9": ("C12", ["C12", "C02"], "witness.parse: bytes.HasPrefix(raw, origin) without the newline replaces the exact origin comparison", "two logs sharing a key, one origin a proper prefix of the other, the longer one's checkpoint under the shorter one's ID"),
+    "C12-10": ("C12", ["C12", "C05"], "(same mechanism as C12-5, written independently) inmemory store-wide write counter", "in-memory store, a complete update of log B between log A's WriteOps and Set"),
+    "C14-9": ("C14", ["C14", "C07"], "sql writer: Set marks done first, Close skips Rollback when done (a failed INSERT leaks the transaction)", "one failed INSERT (e.g. a write-write collision with another connection) on the one-connection store"),
+    "C14-10": ("C14", ["C14"], "Main: errgroup SetLimit(32) on the group whose members all run until the context ends", "32 or more long-running members (feeder logs + bastion + distributor)"),
+    "C16-9": ("C16", ["C16"], "client reads bodies into a sync.Pool buffer and returns buf.Bytes() (aliases the pool)", "a result retained across another client call, or concurrent calls"),
+    "C16-10": ("C16", ["C16", "C04"], "an accepted refresh with identical text is cosigned and returned but not stored", "a cosignature/v1 key and a refresh in a later second than the stored cosignature"),
+    "C17-9": ("C17", ["C17", "C12"], "Main: fedLogs filters the configured list in place (logs[:0] + append); bastion and distributor get the damaged list", "polling on, a Feeder-none entry that is not last (shipped config), a bastion or distributor configured"),
+    "C17-10": ("C17", ["C17"], "config.NewLog appends '/' to the URL string; the Rekor treeID becomes 'N/'", "a shipped Rekor entry fed against a server that serves shards by treeID"),
+    "C19-9": ("C19", ["C19"], "(same mechanism as C19-5, written independently) rekor []*shardInfo, JSON null element dereferenced", "a 200 JSON reply with a literal null in inactiveShards before any matching shard"),
+    "C19-10": ("C19", ["C19", "C14"], "(same family as C19-6) feeder.Run returns the per-cycle context's error when a cycle is still failing as its interval ends", "continuous mode, witness holding a checkpoint, a cycle that fails for the whole interval"),
+    "C20-9": ("C20", ["C20"], "the split-view alarm (comparison, log line, counter) raised before the old-size checks; the return stays after them", "one request with two anomalies: a wrong old size AND a same-size forked checkpoint"),
+    "C20-10": ("C20", ["C20"], "a first-submission Set that fails although a checkpoint can now be read re-enters Update (attempt counted twice)", "two overlapping first submissions for one log, both reading 'nothing stored' before either writes"),
+}
+SEEDS2.update(SEEDS6)
 ROUND5 = {'C01', 'C02', 'C03', 'C04', 'C05', 'C07', 'C08', 'C09', 'C10', 'C13', 'C15', 'C18'}
 SRC = {}
 for _sid in SEEDS2:
     _pid, _k = _sid.split("-")
+    if int(_k) >= 9:
+        SRC[_sid] = f"/tmp/seed6/{_pid}/_out/{int(_k) - 8}"
+        continue
     SRC[_sid] = f"/tmp/seed2/{_pid}/_out/{int(_k) - 2}" if int(_k) <= 4 else (f"/tmp/seed3/{_pid}/_out/{int(_k) - 4}" if int(_k) <= 6 else (f"/tmp/seed5/{_pid}/_out/{int(_k) - 6}" if _pid in ROUND5 else f"/tmp/seed4/{_pid}/_out/{int(_k) - 6}"))
 SEEDS.update(SEEDS2)
 
